@@ -392,8 +392,9 @@ def check_site(repo, eng, res, fn, st, key, how, prop=PROP):
                         early.append((n, "next(self._edge_uid)"))
                     elif isinstance(c, ast.Call) and isinstance(c.func, ast.Attribute) and isinstance(c.func.value, ast.Name) and c.func.value.id == selfn and c.func.attr in drawers:
                         early.append((n, f"{selfn}.{c.func.attr}()"))
-            # draws in a later iteration of the enclosing bulk loop are preceded by this iteration's bump (checked above)
-            early = [(n, w) for n, w in early if not any(lp in cfg.reachable(st, avoid=lambda x, n=n: x is n or is_bump(x), edge_ok=ef) and n in cfg.reachable(lp, edge_ok=ef) and not any(x is n for x in cfg.reachable(st, avoid=lambda y: isinstance(y, ast.AST) and (is_bump(y) or any(y is l2 for l2 in loops)), edge_ok=ef)) for lp in loops)]
+            # (a draw in a later iteration is only reachable here if this iteration's bump is missing - reported above)
+            if not ok:
+                early = []
             res.inst("U-BUMP", desc + " - no automatic ID drawn before the counter has passed the inserted ID", not early)
             if early and ("U-BUMP-ORDER", st.lineno) not in reported:
                 reported.add(("U-BUMP-ORDER", st.lineno))
